@@ -86,6 +86,52 @@ theorem selected_eq_closure {p : Proj} (h : Partition p) {names : List String} (
     simp [withSelectedServices, hw, this] at hq
   | outOfFuel => exact absurd hw (forEachService_fuel h.1 names pol)
 
+/-- the executable successor list of the spec is the edge relation -/
+theorem mem_succ_iff {svcs : AL Svc} (nd : (keys svcs).Nodup) (pol : Policy) (x y : String) :
+    y ∈ succ svcs pol x ↔ Edge svcs pol x y := by
+  cases pol with
+  | deps =>
+    unfold succ Edge
+    cases hs : lookup x svcs with
+    | none => simp [hs]
+    | some s => simp [hs, List.mem_filter]
+  | dependents =>
+    unfold succ Edge
+    by_cases hx : x ∈ keys svcs
+    · simp only [hx, if_true, true_and, mem_keys_filter, decide_eq_true_eq]
+      exact ⟨fun ⟨v, hm, hd⟩ => ⟨v, lookup_of_mem nd hm, hd⟩, fun ⟨v, hl, hd⟩ => ⟨v, mem_of_lookup hl, hd⟩⟩
+    · simp [hx]
+  | ignore => simp [succ, Edge]
+
+/-- the oracle's way of computing the closure (iterated saturation) never leaves `Reach` … -/
+theorem closure_sound {svcs : AL Svc} (nd : (keys svcs).Nodup) (pol : Policy) (roots : List String) :
+    ∀ x ∈ closure svcs pol roots, Reach svcs pol roots x := by
+  unfold closure
+  have step : ∀ n S, (∀ x ∈ S, Reach svcs pol roots x) → ∀ x ∈ closureN svcs pol n S, Reach svcs pol roots x := by
+    intro n
+    induction n with
+    | zero => intro S h; exact h
+    | succ n ih =>
+      intro S h
+      apply ih
+      intro x hx
+      unfold expand at hx
+      rw [List.mem_eraseDups, List.mem_append, List.mem_flatMap] at hx
+      rcases hx with hx | ⟨a, ha, hxa⟩
+      · exact h x hx
+      · exact .step (h a ha) ((mem_succ_iff nd pol a x).1 hxa)
+  apply step
+  intro x hx
+  rw [List.mem_eraseDups, List.mem_filter] at hx
+  exact .root hx.1 (by simpa using hx.2)
+
+/-- … and once the run-time check `Closed` (oracle clause `closure-saturated`) passes, it *is* `Reach` -/
+theorem closure_complete {svcs : AL Svc} (nd : (keys svcs).Nodup) (pol : Policy) (roots S : List String)
+    (hc : Closed svcs pol roots S) (x : String) (hx : Reach svcs pol roots x) : x ∈ S := by
+  induction hx with
+  | root hr hk => exact hc.1 _ hr hk
+  | step _ e ih => exact hc.2 _ ih _ ((mem_succ_iff nd pol _ _).2 e)
+
 /-- the full description of a successful selection: for the closure `S` of the names, the result satisfies
 `SelectSpec` (enabled set = `S`, each selected service keeps exactly its dependencies inside `S`, nothing dangling,
 previously disabled services untouched), every service is conserved, resources are untouched -/
